@@ -30,6 +30,7 @@ from props import decoder_common as dc
 MODULES = ['FeVerif.Props.C07']
 CAPS = [24, 25, 27, 28, 64, 164, 1024]
 MODES = ['0', '1', '2', '3', 'i']
+BIG_PY_GIVE_UP_S = 60      # the Python decoder on one 16 MB message: about a second when it accepts it
 SRC = ['point_one/fusion_engine/parsers/fusion_engine_framer.cc', 'point_one/fusion_engine/messages/crc.cc',
        'point_one/fusion_engine/common/logging.cc']
 
@@ -436,9 +437,33 @@ def judge(ctx, job, impl, model, report, scans, pydec):
     return {'hasbuf': hasbuf, 'cap': cap_eff, 'cbs': allcbs, 'total': total, 'final': final}
 
 
-def python_decoder(data, max_payload):
-    calls, flat, err, _ = dc.run_decoder([data], max_payload)
+class _DecoderTooSlow(Exception):
+    pass
+
+
+def python_decoder(data, max_payload, give_up_after=None):
+    """The messages FusionEngineDecoder(max_payload_len_bytes=max_payload) returns for data (None: it raised).  With
+    give_up_after (seconds): 'timeout' when it has not returned by then - a decoder that refuses a multi-megabyte candidate
+    re-scans it byte by byte and needs hours; the caller then repeats the question at a small scale."""
+    import signal
+
+    def alarm(signum, frame):
+        raise _DecoderTooSlow()
+    old = None
+    if give_up_after:
+        old = signal.signal(signal.SIGALRM, alarm)
+        signal.setitimer(signal.ITIMER_REAL, give_up_after)
+    try:
+        calls, flat, err, _ = dc.run_decoder([data], max_payload)
+    except _DecoderTooSlow:
+        return 'timeout'
+    finally:
+        if give_up_after:
+            signal.setitimer(signal.ITIMER_REAL, 0)
+            signal.signal(signal.SIGALRM, old)
     if err is not None:
+        if '_DecoderTooSlow' in str(err):
+            return 'timeout'
         return None
     return [d['raw'] for d in flat]
 
@@ -747,9 +772,27 @@ def judge_big(ctx, c, ans, report, pycache):
     if c['payload'] <= BIG and 24 + c['payload'] <= cap_eff:
         key = (cap_eff, c['payload'], c['seed'])
         if key not in pycache:
-            pycache[key] = python_decoder(data, cap_eff - 24)
+            pycache[key] = python_decoder(data, cap_eff - 24, give_up_after=BIG_PY_GIVE_UP_S)
             ctx.count('python_decoder_runs')
         py = pycache[key]
+        if py == 'timeout':
+            # the decoder has not answered a question the model answers after one CRC pass (normally about a second): the same
+            # stream shape with a 1000-byte message and the limit in the same relation to it, which any decoder answers at once
+            ctx.count('python_decoder_gave_up_on_a_big_message')
+            n2 = 1000
+            cap2 = cap_eff - c['payload'] + n2
+            data2 = big_stream(c['seed'], n2)
+            py2 = python_decoder(data2, cap2 - 24, give_up_after=BIG_PY_GIVE_UP_S)
+            want2 = [data2[o:o + n] for o, n in py_scan(cap2, data2)]
+            if isinstance(py2, list) and py2 != want2:
+                ctx.violation('C07/differs-from-python-decoder',
+                              'capacity_bytes_=%d: the framer (= the scan) dispatches %s, FusionEngineDecoder(max_payload=%d) returned %s '
+                              '(small-scale twin of the big-message case payload=%d capacity_bytes_=%d, on which the Python decoder did '
+                              'not answer within %d s)' % (cap2, [len(m) for m in want2], cap2 - 24, [len(m) for m in py2],
+                                                           c['payload'], cap_eff, BIG_PY_GIVE_UP_S),
+                              {'stream': data2.hex(), 'capacity': cap2, 'mode': '0', 'ops': [op_replay(data2)],
+                               'twin_of': rp['big']})
+            return
         if py is not None and [(m[:24], len(m) - 24, zlib.crc32(m[24:])) for m in py] != [(g[0], g[1], g[3]) for g in got]:
             ctx.violation('C07/differs-from-python-decoder',
                           'capacity_bytes_=%d: framer dispatched %s, FusionEngineDecoder(max_payload=%d) returned %s'
